@@ -17,7 +17,9 @@ def build(groups):
             continue
         quick = [g for g in gs if g.tier == 'quick']
         proved_all = all(g.level == 'proved' for g in gs)
-        cat = 'proof' if proved_all else 'other'
+        known, _ = cvlib.load_known()
+        has_known = any(k['prop'] == pid for k in known)
+        cat = 'proof' if (proved_all and not has_known) else 'other'
         checks.append(dict(
             property_id=pid,
             quick_cmd='./cv check %s --tier quick' % pid,
